@@ -7,7 +7,7 @@
 //
 // Output protocol (one line each, flushed at once, so a dead worker names its last run):
 //   BEGIN <idx> <run_seed>
-//   END <idx> <run_seed> <event_hash> <ok|VIOL> <nontrivial 0/1> <distinct_key> <rule-or-->
+//   END <idx> <run_seed> <event_hash> <ok|VIOL> <nontrivial 0/1> <distinct_key> <rule-or--> <evals> <distinct_extra>
 //   CAND <path>                 plan (with the recorded explicit schedule) of a violating run
 //   NONDET <idx> <run_seed> ... same plan executed twice gave different hashes  (exit 2)
 //   SAMPLE <json>               a plan that was executed (for the evidence file)
@@ -199,14 +199,16 @@ int main(int argc, char **argv) {
       for (auto &kv : r.counters) {
         total[kv.first] += kv.second;
       }
-      printf("END %llu %llu %s %s %d %s %s\n",
+      printf("END %llu %llu %s %s %d %s %s %llu %llu\n",
              static_cast<unsigned long long>(idx),
              rs,
              hex(r.event_hash).c_str(),
              r.violation ? "VIOL" : "ok",
              r.nontrivial ? 1 : 0,
              hex(r.distinct_key).c_str(),
-             r.violation ? r.rule.c_str() : "-");
+             r.violation ? r.rule.c_str() : "-",
+             static_cast<unsigned long long>(r.evals),
+             static_cast<unsigned long long>(r.distinct_extra));
       fflush(stdout);
       if (k < samples) {
         printf("SAMPLE %s\n", plan.dump().c_str());
@@ -239,6 +241,9 @@ int main(int argc, char **argv) {
         ex["event_hash"] = J(hex(r.event_hash));
         if (!r.recorded_sched.is_null()) {
           cand["sched_recorded"] = r.recorded_sched;
+        }
+        for (auto &kv : r.plan_patch.o) {
+          cand[kv.first] = kv.second;
         }
         const std::string path = out_dir + "/cand-" + world + "-" + (fixed ? "fixed-" : "") + std::to_string(rs) + ".json";
         write_file(path, cand.dump() + "\n");
